@@ -110,3 +110,77 @@ def outbox(ctx):
 
 def msg_field(m, k):
     return m.items[k]
+
+
+# ------------------------------------------------------------------ frame analysis (syntactic)
+MUTATORS = {'add', 'append', 'pop', 'clear', 'discard', 'remove', 'update', 'extend', 'insert', 'setdefault', 'popleft',
+            'deleteEntriesFrom', 'deleteEntriesTo', 'setRaftCommitIndex', 'sort'}
+
+
+def frame_of(fn):
+    """self attributes a function may modify *directly*: assignment, augmented assignment, subscript store/delete,
+    or a mutating method call on the attribute"""
+    out = set()
+    for n in ast.walk(fn):
+        tg = []
+        if isinstance(n, ast.Assign):
+            tg = n.targets
+        elif isinstance(n, ast.AugAssign):
+            tg = [n.target]
+        elif isinstance(n, ast.Delete):
+            tg = n.targets
+        for t in tg:
+            for x in ast.walk(t):
+                if isinstance(x, ast.Attribute) and isinstance(x.value, ast.Name) and x.value.id == 'self' and \
+                        isinstance(x.ctx, (ast.Store, ast.Del)):
+                    out.add(x.attr)
+                if isinstance(x, (ast.Subscript,)) and isinstance(x.ctx, (ast.Store, ast.Del)):
+                    b = x.value
+                    if isinstance(b, ast.Attribute) and isinstance(b.value, ast.Name) and b.value.id == 'self':
+                        out.add(b.attr)
+        if isinstance(n, ast.Call) and isinstance(n.func, ast.Attribute) and n.func.attr in MUTATORS:
+            b = n.func.value
+            if isinstance(b, ast.Subscript):
+                b = b.value
+            if isinstance(b, ast.Attribute) and isinstance(b.value, ast.Name) and b.value.id == 'self':
+                out.add(b.attr)
+    return out
+
+
+def self_calls(fn):
+    out = set()
+    for n in ast.walk(fn):
+        if isinstance(n, ast.Call) and isinstance(n.func, ast.Attribute) and isinstance(n.func.value, ast.Name) \
+                and n.func.value.id == 'self':
+            out.add(n.func.attr)
+    return out
+
+
+def writers_of(mod, cls, attr):
+    """methods of `cls` that directly modify self.<attr>"""
+    ci = mod.classes[cls]
+    return sorted(m for m, fn in ci.methods.items() if attr in frame_of(fn))
+
+
+# ------------------------------------------------------------------ __sendAppendEntries: frame summary
+SEND_AE_MODIFIES = {'__newAppendEntriesTime', '__raftNextIndex'}
+
+
+def sendAppendEntries_summary(I, selfv, args, kwargs):
+    """modifies only: newAppendEntriesTime, values of raftNextIndex (keys unchanged), connectedNodes (may
+    shrink, through transport.send), serializer transmissions, the outbox.  Everything it puts on the
+    wire satisfies G_AE, which is proved on the body in unit `sendAppendEntries`."""
+    ctx = I.ctx
+    so = I.hooks['so']
+    ctx.prove(so.get('raftState') == 2, '*:sendAppendEntries.pre.is-leader')
+    nx = so.cell('raftNextIndex')
+    ctx.setcell(so.get('raftNextIndex'), NMap(nx.pres, [FreshInt('nextAfterSend') for _ in nx.vals]))
+    conn = so.cell('connectedNodes')
+    ctx.setcell(so.get('connectedNodes'), NSet([And(b, FreshBool('stillConn')) if b is not False else False for b in conn.bits]))
+    c = ctx.cell(so.selfref)
+    ctx.setcell(so.selfref, c.with_field(F('newAppendEntriesTime'), FreshReal('newAeTime')))
+    ctx.ghost['outbox'] = ctx.glist('outbox') + [('append_entries*', None)]
+    return None
+
+
+SUMMARIES['SyncObj.__sendAppendEntries'] = sendAppendEntries_summary
